@@ -49,7 +49,10 @@ def ensure_targets():
 def reproduce(exe, artifact, timeout=90):
     env = dict(os.environ)
     env["ASAN_OPTIONS"] = "detect_leaks=0"
-    env["VERIF_FUZZ_TMP"] = os.path.dirname(artifact)
+    # scratch files of the target go to the build area, never next to a committed regression input (a crashing target leaves them behind)
+    tmp = os.path.join(build.BUILD, "run", "fuzz_replay")
+    os.makedirs(tmp, exist_ok=True)
+    env["VERIF_FUZZ_TMP"] = tmp
     try:
         p = subprocess.run([exe, artifact, "-timeout=60", "-rss_limit_mb=2048", "-detect_leaks=0"], stdout=subprocess.PIPE, stderr=subprocess.PIPE, timeout=timeout, env=env)
     except subprocess.TimeoutExpired:
